@@ -565,11 +565,11 @@ compact_tuple_sketch<S, A> compact_tuple_sketch<S, A>::deserialize(const void* b
     if (preamble_longs == 1) {
       num_entries = 1;
     } else {
-      ensure_minimum_memory(size, 8); // read the first prelong before this method
+      ensure_minimum_memory(size, 16); // the first prelong was read above, the second holds the number of entries
       ptr += copy_from_mem(ptr, num_entries);
       ptr += sizeof(uint32_t); // unused
       if (preamble_longs > 2) {
-        ensure_minimum_memory(size, (preamble_longs - 1) << 3);
+        ensure_minimum_memory(size, 24); // the third prelong holds theta
         ptr += copy_from_mem(ptr, theta);
       }
     }
@@ -583,6 +583,7 @@ compact_tuple_sketch<S, A> compact_tuple_sketch<S, A>::deserialize(const void* b
     std::unique_ptr<S, deleter_of_summaries> summary(alloc.allocate(1), deleter_of_summaries(1, false, allocator));
     for (size_t i = 0; i < num_entries; ++i) {
       uint64_t key;
+      ensure_minimum_memory(base + size - ptr, sizeof(key)); // keys and summaries are interleaved
       ptr += copy_from_mem(ptr, key);
       ptr += sd.deserialize(ptr, base + size - ptr, summary.get(), 1);
       entries.push_back(Entry(key, std::move(*summary)));
